@@ -235,6 +235,27 @@ func c10Run(cs c10Case) (sig, what string, rec obj) {
 			return "move-restore-fails", "first hop: " + err.Error(), nil
 		}
 		mf.Decls = mf.Decls[:len(mf.Decls)-1]
+		// ... and, when no type information is used, onwards through the go/ast form of the middle file:
+		// restored to an *ast.File (which carries no object resolution and no File.Imports list) and
+		// decorated again with the syntax-based resolver
+		dots := false
+		for _, p := range c10Paths {
+			dots = dots || cs.DstState[p] == "."
+		}
+		if cs.Goast && !dots && cs.Decl != 8 {
+			mf.Decls = append(mf.Decls, moved)
+			rr := decorator.NewRestorerWithImports("app/mid", simple.New(names))
+			maf, err := rr.RestoreFile(mf)
+			if err != nil {
+				return "move-restore-fails", "first hop (to ast): " + err.Error(), nil
+			}
+			mf2, err := decorator.NewDecoratorWithImports(rr.Fset, "app/mid", goast.WithResolver(simple.New(names))).DecorateFile(maf)
+			if err != nil {
+				return "move-decorate-fails", "middle file decorated again: " + err.Error(), nil
+			}
+			moved = mf2.Decls[len(mf2.Decls)-1]
+			mf2.Decls = mf2.Decls[:len(mf2.Decls)-1]
+		}
 	}
 	out, _, err = place(dstPkgPath, dstPkgName, moved)
 	if err != nil {
